@@ -87,6 +87,12 @@ pub const ENTRY_OVERHEAD: usize = 36 + 8 + 8;
 /// 4 multi-page, 5 exactly the per-entry maximum, 6 one byte beyond the maximum.
 pub fn value_len(g: &Geo, class: u32, ver: u32) -> usize {
     let max_len = g.max_entry - ENTRY_OVERHEAD;
+    if class >= 100 {
+        // exact page counts (C07): an entry of `class - 100` pages, sometimes with slack inside its last page
+        let pages = (class - 100).max(1) as usize;
+        let slack = if ver % 3 == 0 { 0 } else { (ver as usize * 37) % 900 };
+        return (pages * PAGE - ENTRY_OVERHEAD - slack).min(max_len);
+    }
     let l = match class {
         0 => 20,
         1 => 100 + (ver as usize * 37) % 2000,
@@ -350,6 +356,14 @@ pub struct Ctl {
 }
 
 pub async fn open(case: &Case, ctl: &Ctl) -> Result<HCache, String> {
+    // live read faults are injected into the running store, not into its start-up
+    let saved = simdev::DISK.with(|d| std::mem::take(&mut d.borrow_mut().read_faults));
+    let r = open_inner(case, ctl).await;
+    simdev::DISK.with(|d| d.borrow_mut().read_faults = saved);
+    r
+}
+
+async fn open_inner(case: &Case, ctl: &Ctl) -> Result<HCache, String> {
     let g = geo(case);
     let dev = SimDevice::new(g.capacity);
     let policy = if case.get("policy") == 1 { HybridCachePolicy::WriteOnInsertion } else { HybridCachePolicy::WriteOnEviction };
@@ -831,6 +845,10 @@ impl Hyb {
                 hist::ev("wait_inv", 0, 0, 0);
                 cache.storage().wait().await;
                 hist::ev("wait_ret", 0, 0, 0);
+                if case.property == "C07" {
+                    drop(cache);
+                    crate::hyboracle::c07_checkpoint(self, "after-wait").await;
+                }
                 Res::unit()
             }
             Op::Close => {
@@ -880,7 +898,11 @@ impl Hyb {
                         }
                     }
                 });
-                Res::boolean(self.reopen().await)
+                let ok = self.reopen().await;
+                if ok && case.property == "C07" {
+                    crate::hyboracle::c07_checkpoint(self, "after-reopen").await;
+                }
+                Res::boolean(ok)
             }
             Op::DropHandle { idx } => {
                 if !self.held.is_empty() {
@@ -1023,6 +1045,13 @@ pub fn init_state(case: &Case) {
         };
     });
     simdev::reset_disk(case.get("max_delay").max(0) as usize);
+    if case.get("live_corrupt") > 0 {
+        simdev::DISK.with(|d| {
+            let mut d = d.borrow_mut();
+            d.read_faults.corrupt_per_mille = case.get("live_corrupt") as u32;
+            d.read_faults.error_per_mille = case.get("live_error") as u32;
+        });
+    }
     foyer_common::verif::set_event_sink(on_foyer_event);
 }
 
